@@ -199,11 +199,34 @@ func init() {
 	p33.MaxKeys = 6
 	p33.WIter = 4
 	p33.Groups = [][]string{{"client", "compactor", "flusher", "subcompact", "builder"}, nil}
+	p33gv := *p33
+	p33g := &p33gv
+	p33g.Name = "G-C33"
+	p33g.WGC = 8
+	p33g.WDel = 3
+	p33g.Groups = [][]string{nil, {"client", "gc", "compactor", "flusher", "subcompact", "builder"}}
 	register(&Scenario{Prop: "C33", Family: "K", Level: "exploration", Profile: p33, NonTrivialProbe: "expiry_crossed",
 		Gen: func(t *rapid.T) *Case {
 			c := GenCase(t, p33)
+			if rapid.IntRange(0, 2).Draw(t, "c33_gc_variant") == 0 {
+				// variant: expiring values live in a value log that rotates every few
+				// entries and RunValueLogGC moves them before their expiry passes
+				c = GenCase(t, p33g)
+				c.Cfg.ValueThreshold = int64(rapid.SampledFrom([]int{16, 32, 64}).Draw(t, "vt_gc"))
+				c.Cfg.VLogPercentile = 0
+				c.Cfg.ValueLogMaxEntries = uint32(rapid.SampledFrom([]int{3, 5, 10, 20}).Draw(t, "vlog_entries_gc"))
+				c.Cfg.PrefillVlog = true
+			}
+			// part of the pre-fill expires 20-90 simulated seconds after it was written
+			c.Cfg.PrefillTTL = rapid.SampledFrom([]int{0, 20, 45, 90}).Draw(t, "prefill_ttl")
+			if c.Cfg.PrefillAgeS > 11 {
+				c.Cfg.PrefillAgeS = 11
+			}
 			// TTLs of 1-5 s with clock jumps of 1 s / 11 s so that expiry is crossed mid-run
 			c.Sched.ClockMs = []int{50, 1000, 1000, 2000, 11000}
+			if c.Cfg.PrefillTTL > 0 {
+				c.Sched.ClockMs = []int{50, 1000, 2000, 11000, 11000, 30000}
+			}
 			for ci := range c.Clients {
 				for oi := range c.Clients[ci] {
 					op := &c.Clients[ci][oi]
@@ -214,7 +237,7 @@ func init() {
 			}
 			return c
 		},
-		Rule: "entries with TTL 1-3600 s mixed with deletes and non-expiring overwrites; seeded clock jumps (50 ms..11 s) cross expiry times while transactions are open; Get and iterators (all options) must equal the model evaluated at the simulated time of the read, before and after flush/compaction. non-trivial = run in which >=1 checked read found its newest version expired (expiry crossed by the simulated clock)",
+		Rule: "entries with TTL 1-3600 s mixed with deletes and non-expiring overwrites; seeded clock jumps (50 ms..11 s) cross expiry times while transactions are open; Get and iterators (all options) must equal the model evaluated at the simulated time of the read, before and after flush/compaction; one case in three keeps the expiring values in a fast-rotating value log and runs RunValueLogGC so that entries are moved before their expiry passes. non-trivial = run in which >=1 checked read found its newest version expired (expiry crossed by the simulated clock)",
 	})
 	// C34 oracle and watermarks
 	p34 := profT("T-C34")
@@ -365,7 +388,21 @@ func init() {
 	p31.NoIter = true
 	p31.Groups = [][]string{nil, {"client", "merge", "compactor", "flusher", "subcompact", "builder", "txn"}}
 	register(&Scenario{Prop: "C31", Family: "K", Level: "exploration", Profile: p31, NonTrivialProbe: "merge_get_multi",
-		Gen:  func(t *rapid.T) *Case { return GenCase(t, p31) },
+		Gen: func(t *rapid.T) *Case {
+			c := GenCase(t, p31)
+			// ordinary keys that extend a merge key ("~merge0" + suffix) live next to it
+			n0 := len(c.Keys)
+			c.Keys = append(c.Keys, HexBytes("~merge0\x00"), HexBytes("~merge1z"), HexBytes("~merge0"+"\xff"))
+			for ci := range c.Clients {
+				for oi := range c.Clients[ci] {
+					op := &c.Clients[ci][oi]
+					if (op.K == "set" || op.K == "get") && (oi+ci)%2 == 0 {
+						op.Key = n0 + (oi+ci)/2%3
+					}
+				}
+			}
+			return c
+		},
 		Rule: "clients Add unique values to two shared merge keys (byte concatenation: associative, not commutative) and Get them, while the operators' own ticker-driven compaction (10 ms-1 s), flushes and real LSM compactions are scheduled actors; Get must equal the concatenation, in commit order, of a prefix of the Adds that contains every Add completed before the Get began, ErrKeyNotFound only before the first Add. non-trivial = a Get checked against >=2 Adds",
 	})
 	// C36 managed mode
